@@ -1552,7 +1552,11 @@ class Quantity(metaclass=QuantityMeta):
 
     def __hash__(self) -> int:
         """hash(self)"""
-        return hash((self.amount, self.unit))
+        ref_unit = self.__class__.ref_unit
+        if ref_unit is None:
+            return hash((self.amount, self.unit))
+        # quantities which are equal across units must have equal hashes
+        return hash((self.equiv_amount(ref_unit), ref_unit))
 
     def __abs__(self: Q) -> Q:
         """abs(self) -> self.Quantity(abs(self.amount), self.unit)"""
